@@ -369,6 +369,9 @@ def pool_strategy(draw):
             p["zone_tree"] = {"name": "Site", "type": draw(st.sampled_from(["Site", "Zone"])), "children": [{"name": z, "type": alias, "children": None} for z in zones]}
             if draw(st.booleans()):
                 ss[0]["zone"] = "Site"
+                if draw(st.booleans()):
+                    # ... and named like one of the zones (or the root): the zone made for it needs a free name
+                    ss[0]["name"] = draw(st.sampled_from(list(zones) + ["Site"]))
         if draw(st.integers(0, 2)) == 0:
             # numbers spelled as value-with-unit dictionaries (unit strings such as '\u00b0C', 'kW/m^2/degC'), field by field
             S.apply_spelling(p, draw(st.lists(st.integers(0, 3), min_size=2, max_size=9)))
